@@ -10,17 +10,12 @@ NOTE_COMMON = ('Trusted: Lean 4.33 kernel and the axioms printed per theorem (âŠ
                'the Pythonâ†’Lean translator harness/pylean.py + harness/extract (validated every run by executing the '
                'translated definitions against the real code); the correspondence harness and its generators. ')
 
-CHECKS = {
-    'C04': dict(
-        text=('Lean theorems over the regenerated translation of LocationAction.can_trigger / TracepointWindow.in_window / '
-              'TracepointExecutionStats.fire: count bound, pairwise spacing, window containment, liveness and refinement to a '
-              'reference limiter for EVERY history and configuration text; the schedule quantifier is decided negatively '
-              '(race witness theorem + known finding replayed on real threads). Tie: translation regenerated each run + '
-              'differential runs of the model against TriggerHandler.trace_call with a scripted clock and forced 2-thread schedules.'),
-        note=NOTE_COMMON + 'Modelled: ActionContext glue (limits, condition, process, record) as Limiter.stepHit; int() parsing for ASCII; '
-             'GIL atomicity of the check/process/record regions.',
-        technique='Lean 4 proof over source-translated definitions + differential correspondence', design='7/C04'),
-}
+CHECKS = {}
+for _f in sorted(os.listdir(os.path.join(HERE, 'manifest.d'))):
+    if _f.endswith('.json'):
+        _e = json.load(open(os.path.join(HERE, 'manifest.d', _f)))
+        _e['note'] = NOTE_COMMON + _e.get('note', '')
+        CHECKS[_f[:-5]] = _e
 
 NOT_APPLICABLE = {}
 
